@@ -936,7 +936,15 @@ impl<'tcx> Cx<'tcx> {
                 fs.push(J::Obj(fo));
             }
             let discr = if adt.is_enum() {
-                J::Int(adt.discriminant_for_variant(tcx, vi).val as i128)
+                let d = adt.discriminant_for_variant(tcx, vi);
+                let v: i128 = match d.ty.kind() {
+                    ty::Int(it) => {
+                        let bits = it.bit_width().unwrap_or(64);
+                        rustc_abi::Size::from_bits(bits).sign_extend(d.val) as i128
+                    }
+                    _ => d.val as i128,
+                };
+                J::Int(v)
             } else {
                 J::Null
             };
